@@ -169,7 +169,7 @@ theorem decideProposal_proposes_locked (n : Node) (h r : Int) (b : Name) (hl : n
 theorem finalizeCommit_emits (n : Node) (h : Int) (b : Name)
     (hc : Emit.commit h b ∈ (finalizeCommit n h).out) (hnew : Emit.commit h b ∉ n.out) :
     ∃ bid, maj23 (precommits n n.commitRound) = some bid ∧ nameOf bid = b ∧ isValid n b = true ∧
-      n.proposalBlock = some b := by
+      n.proposalBlock = some b ∧ n.partsComplete = true := by
   unfold finalizeCommit at hc
   split at hc
   · exact absurd hc hnew
@@ -181,13 +181,15 @@ theorem finalizeCommit_emits (n : Node) (h : Int) (b : Name)
         · simp [emit] at hc; exact absurd hc hnew
         · split at hc
           · simp [emit] at hc; exact absurd hc hnew
-          · rename_i h1 h2 h3
-            simp [emit] at hc
-            rcases hc with hc | hc
-            · exact absurd hc hnew
-            · subst hc
-              refine ⟨bid, hm, ?_, by simpa using h3, hp⟩
-              exact (Classical.not_not.mp h2).symm
+          · split at hc
+            · simp [emit] at hc; exact absurd hc hnew
+            · rename_i h1 h2 h3 h4
+              simp [emit] at hc
+              rcases hc with hc | hc
+              · exact absurd hc hnew
+              · subst hc
+                refine ⟨bid, hm, ?_, by simpa using h3, hp, by simpa using h4⟩
+                exact (Classical.not_not.mp h2).symm
     · simp [emit] at hc; exact absurd hc hnew
 
 /-! ### non-vacuity: a concrete round in which the rules fire -/
